@@ -130,7 +130,7 @@ def run(ctx):
                               "equal to the formula with that constant)", {"input": {"model": mk, "token": tok}})
         for v in range(nvec):
             names, vals = rand_params(mk, rng)
-            if rng.random() < 0.15:
+            if rng.random() < 0.15 or v in (5, 7):
                 # boundary-coincident parameter values
                 P0 = dict(zip(names, vals))
                 if "E_L" in P0:
